@@ -219,8 +219,8 @@ def localKeyGen : List String := [
 def proveKnowledge : List String := [
   "hPrime := p.c.GenG1.Copy()",
   "hPrime.Sub(hPrime)",
-  "for i, signer := range signers {",
-  "l := lagrangeCoefficient(int64(signer), evaluationPoints...)",
+  "for i, _ := range signers {",
+  "l := lagrangeCoefficient(evaluationPoints[i], evaluationPoints...)",
   "hPrime.Add(w.Mul(l))",
   "}"
 ]
